@@ -156,10 +156,10 @@ COMMON_ASSUME = ["TLC's evaluator and the CommunityModules Java overrides (Bitwi
 def panic_candidates(S, kinds, n, label):
     """Value properties say what every call returns; a call that panics returns nothing.  The native panic scan of C14
     (counter seeds built three ways and driven for a few outputs) proposes seeds; each hit becomes an ordinary case."""
-    binp = vlib.build_harness()
+    binp = vlib.build_harness("o3chk", True)       # optimised, with overflow checks and debug assertions: many seeds per second
     wd = vlib.workdir("scan-" + label)
     sp, tp = os.path.join(wd, "scan.s"), os.path.join(wd, "scan.t")
-    vlib.write_ndjson(sp, [{"op": "reset"}] + [{"op": "panic_scan", "kind": kd, "n": n, "seed_len": corpora.SEEDLEN[kd], "outputs": 4} for kd in kinds])
+    vlib.write_ndjson(sp, [{"op": "reset"}] + [{"op": "panic_scan", "kind": kd, "n": n, "seed_len": corpora.SEEDLEN[kd], "outputs": 4, "threads": 14} for kd in kinds])
     vlib.drive(binp, sp, tp, timeout=3000)
     found = 0
     for e in vlib.read_ndjson(tp):
@@ -189,7 +189,7 @@ def check_C01(tier, seed):
             ops += [{"op": "from_seed", "g": 1, "kind": kind, "seed": sd}, {"op": nat, "g": 1, "n": 3}]
         if ops:
             S.case("%s states stepping onto structured states" % kind, ops)
-    panic_candidates(S, list(corpora.XO) + ["SplitMix64"], 4000 if tier == "quick" else 40000, "C01")
+    panic_candidates(S, list(corpora.XO) + ["SplitMix64"], 400000 if tier == "quick" else 8000000, "C01")
     return trace_check("C01", tier, seed, S, "Trace_Alg.tla", "Trace_Alg.cfg", release_every=3,
                        rule="for each of the 14 linear generators: every unit-bit seed (complete GF(2) basis of the state space and of the seed decoding) stepped twice; structured scrambler classes (carry chains of every length, multiplier wrap, all-ones, high bits); random seeds x K consecutive native outputs with the full state image compared after every call; SplitMix64 counters around the 2^64 wrap with both finalizers. One TLC state per recorded event; distinct = distinct events",
                        assumptions=COMMON_ASSUME + ["agreement on a basis extends to all states for the GF(2)-linear engine only; the non-linear output scramblers are covered by structured classes and random states, a bound not a proof"])
@@ -197,7 +197,7 @@ def check_C01(tier, seed):
 
 def check_C04(tier, seed):
     S = corpora.c04_corpus(seed, tier)
-    panic_candidates(S, ["XorShiftRng"], 20000 if tier == "quick" else 200000, "C04")
+    panic_candidates(S, ["XorShiftRng"], 4000000 if tier == "quick" else 80000000, "C04")
     return trace_check("C04", tier, seed, S, "Trace_Alg.tla", "Trace_Alg.cfg", release_every=3,
                        rule="all 128 unit-bit seeds of XorShiftRng (complete transition matrix and seed word order) stepped 5 times, structured states, random seeds x K consecutive next_u32 with state image compared after every call",
                        assumptions=COMMON_ASSUME + ["xor128 is GF(2)-linear with identity output: agreement on a basis plus linearity is agreement on all 2^128 states"])
@@ -397,6 +397,16 @@ def c05_schedule(tier, seed, mc):
                     w.append(rng.choice([("next_u32", 0), ("next_u64", 0), ("next_u32", 0)]))
                     w.append(rng.choice([("next_u32", 0), ("next_u64", 0), ("fill_bytes", 3)]))
                 S.case("%s long requests" % kind, corpora.api_case_ops(kind, w, rng), weight=sum(big) // 8 + 200)
+            if kind != "JitterRng":
+                # structured seeds (almost zero, equal words, words cancelling under xor / addition): the projections
+                # (halves, tails) of words with special bit patterns
+                sds = corpora.structured_seeds(kind, rng) if kind in corpora.WORDBYTES and corpora.SEEDLEN[kind] // corpora.WORDBYTES[kind] >= 1 else []
+                sds += [corpora.unit_seed(kind, b) for b in (0, 31, 32, 63, 8 * corpora.SEEDLEN[kind] - 1) if b < 8 * corpora.SEEDLEN[kind]]
+                if tier == "quick":
+                    sds = sds[::2]
+                for si, sd in enumerate(sds):
+                    w = [("next_u32", 0), ("next_u32", 0), ("fill_bytes", 3), ("next_u64", 0), ("fill_bytes", 13), ("next_u32", 0), ("next_u64", 0)]
+                    S.case("%s structured seed %d" % (kind, si), corpora.api_case_ops(kind, w, rng, seed=sd))
             # seeded random interleavings
             nrand = (3 if tier == "quick" else 40)
             bb = {"Hc128": 64, "Isaac": 1024, "Isaac64": 2048}.get(name)
@@ -485,6 +495,12 @@ def check_C14(tier, seed):
         pan = only_panics(res["rejected"])
         other += len(res["rejected"]) - len(pan)
         nviol += report_rejections("C14", pan, S)
+    # the first JitterRng::new() calls of a process, made by 12 threads at the same moment (twice: cache empty / filled)
+    Sp = vlib.Sched()
+    Sp.case("JitterRng::new() from 12 threads at once", [{"op": "jit_std_new_parallel", "threads": 12}, {"op": "jit_std_new_parallel", "threads": 12}, {"op": "jit_std_new"}])
+    ev, cs, res = run_trace("C14-parnew", Sp, "Trace_Jitter.tla", "Trace_Jitter.cfg")
+    parts.append((ev, cs, res))
+    nviol += report_rejections("C14", only_panics(res["rejected"]), Sp)
     # Hc128Rng past word 2^32, in the optimised build with overflow checks (16 GiB of keystream in about 20 s)
     Sv = corpora.very_far_corpus(seed)
     ev, cs, res = run_trace("C14-veryfar", Sv, "Trace_Pair.tla", "Trace_Pair.cfg", profile="o3chk")
@@ -495,12 +511,12 @@ def check_C14(tier, seed):
     binp = vlib.build_harness()
     wd = vlib.workdir("run-C14scan")
     sp, tp = os.path.join(wd, "scan.s"), os.path.join(wd, "scan.t")
-    nscan = 6000 if tier == "quick" else 60000
+    nscan = 300000 if tier == "quick" else 6000000
     ops = [{"op": "reset"}]
     for kind in corpora.ALL_SEEDABLE + ["Hc128Core", "IsaacCore", "Isaac64Core"]:
-        ops.append({"op": "panic_scan", "kind": kind, "n": nscan if "Isaac" not in kind else nscan // 3, "seed_len": corpora.SEEDLEN[kind], "outputs": 8})
+        ops.append({"op": "panic_scan", "kind": kind, "n": nscan * (12 if kind in ("IsaacRng", "Isaac64Rng") else 1), "seed_len": corpora.SEEDLEN[kind], "outputs": 8, "threads": 14})
     vlib.write_ndjson(sp, ops)
-    vlib.drive(binp, sp, tp, timeout=3000)
+    vlib.drive(vlib.build_harness("o3chk", True), sp, tp, timeout=3000)     # optimised, with overflow checks and debug assertions
     S4 = vlib.Sched()
     scanned = {}
     for e in vlib.read_ndjson(tp):
@@ -666,6 +682,7 @@ def check_C16(tier, seed):
     corpora.stuck_run_cases(S, rng, (70, 1030), 2)
     for r in (127, 128, 254, 255):        # the extreme round counts (u8)
         corpora.stuck_run_cases(S, rng, (2,), r)
+    corpora.zero_reading_cases(S, rng)
     rc = trace_check("C16", tier, seed, S, "Trace_Jitter.tla", "Trace_Jitter.cfg", weight=jit_weight,
                      rule="timer scripts constructed so that the first collected value is 0, all ones or has a zero / all-ones half are run through the same discipline. TLC explores the hand-out machine JitterApi (collections as tokens, <=3 instances incl. clone of clone, all interleavings of next_u32/next_u64/fill_bytes(n)/clone) and checks AtMostOnce, PendingIsHighHalfOfOwnValue and FreshOrPendingHalf; a negative control (Clone copying the flag) must fail; every edge of the projected graph (alive, pending flags) is executed on real JitterRng instances with their own scripted timer cursors, and Trace_Jitter, which executes the same plans on concrete pools, validates values, flags and readings consumed. distinct = distinct recorded events",
                      assumptions=JIT_ASSUME + ["fill_bytes(n in 1..4) with a half pending is left open between C05's and C16's wording: both plans are admitted"],
@@ -727,11 +744,12 @@ def check_C15(tier, seed):
     res = vlib.extract_tuples(r["out"], "RESULT")
     if not res:
         raise ToolError("ALG_Pool produced no RESULT:\n" + r["out"][-3000:])
-    items = re.findall(r'<<"(lp|lt|st|lv|tv|nx)", "([a-z-]+)", (\d+), <<(\d+), (\d+), (\d+), (\d+)>>, (\d+)>>', res[-1])
+    items = re.findall(r'<<"(lp|lt|st|lv|tv|nx|lh|th)", "([a-z-]+)", (\d+), <<(\d+), (\d+), (\d+), (\d+)>>, (\d+)>>', res[-1])
     rot = int(re.search(r'(\d+)\s*>>\s*$', res[-1]).group(1))
     names = {"lp": "pool -> lfsr(pool, fixed time)", "lt": "time -> lfsr(fixed pool, time)", "st": "pool -> stir(pool)",
              "lv": "pool -> pool after the variable-round fold step (fixed readings)", "tv": "time -> pool after the variable-round fold step (fixed pool)",
-             "nx": "pool -> next_u64 output of one whole collection (fixed readings)"}
+             "nx": "pool -> next_u64 output of one whole collection (fixed readings)",
+             "lh": "pool -> lfsr(pool, fixed time) while a half is owed", "th": "time -> lfsr(fixed pool, time) while a half is owed"}
     R1, R2 = corpora.C15_R1, corpora.C15_R2
     nviol, undecided, ranks = 0, [], {}
     C, P0 = 0x0123456789ABCDEF, 0xDEADBEEF0BADF00D
@@ -774,11 +792,18 @@ def check_C15(tier, seed):
         if int(rank) < 64:
             # certificate: kernel vector k with f(k) = f(0); replay the collision on the real code
             k = vlib.from_limbs([int(k0), int(k1), int(k2), int(k3)])
-            rd = {"st": [], "lp": [C, C + 1] * 2, "lt": [0, 1, k, k + 1], "lv": [C, R1, R2, C + 1] * 2, "tv": [0, R1, R2, 1, k, R1, R2, k + 1], "nx": S.nx_readings}[kind]
+            pre = [1000, 2037, 3078, 4123, 5172, 6225, 7282]       # one collection with rounds = 1 (for "lh" / "th": a next_u32 first)
+            rd = {"st": [], "lp": [C, C + 1] * 2, "lt": [0, 1, k, k + 1], "lv": [C, R1, R2, C + 1] * 2, "tv": [0, R1, R2, 1, k, R1, R2, k + 1], "nx": S.nx_readings,
+                  "lh": pre + [C, C + 1] * 2, "th": pre + [0, 1, k, k + 1]}[kind]
             ops = [{"op": "timer", "t": 1, "readings": [vlib.u64(x) for x in rd], "cont": [vlib.u64(1)]},
                    {"op": "jit_new", "g": 1, "t": 1}]
+            if kind in ("lh", "th"):
+                ops += [{"op": "set_rounds", "g": 1, "r": 1}, {"op": "next_u32", "g": 1}]
             for w, v in ((0, 0), (1, k)):
-                if kind == "st":
+                if kind in ("lh", "th"):
+                    ops += [{"op": "seek", "g": 1, "pos": len(pre) + 2 * w}, {"op": "set_pool", "g": 1, "pool": vlib.u64(v if kind == "lh" else P0)},
+                            {"op": "timer_stats", "g": 1, "var": False, "tag": ["confirm", kind, w]}]
+                elif kind == "st":
                     ops += [{"op": "set_pool", "g": 1, "pool": vlib.u64(v)}, {"op": "stir", "g": 1, "tag": ["confirm", kind, w]}]
                 elif kind == "nx":
                     ops += [{"op": "seek", "g": 1, "pos": 0}, {"op": "set_pool", "g": 1, "pool": vlib.u64(v)}, {"op": "next_u64", "g": 1, "tag": ["confirm", kind, w]}]
@@ -811,13 +836,15 @@ def check_C15(tier, seed):
     M64 = (1 << 64) - 1
     probes_run = 0
 
+    nx_off = [0]        # where in the whole-collection readings a collection starts (another offset = another affine map)
+
     def map_ops(kind, x, tag, rd):
         """ops applying map `kind` to input x; the readings the call consumes are appended to rd and the cursor is
         re-seated on them first"""
         if kind == "st":
             return [{"op": "set_pool", "g": 1, "pool": vlib.u64(x)}, {"op": "stir", "g": 1, "tag": tag}]
         if kind == "nx":
-            return [{"op": "seek", "g": 1, "pos": 0}, {"op": "set_pool", "g": 1, "pool": vlib.u64(x)}, {"op": "next_u64", "g": 1, "tag": tag}]
+            return [{"op": "seek", "g": 1, "pos": nx_off[0]}, {"op": "set_pool", "g": 1, "pool": vlib.u64(x)}, {"op": "next_u64", "g": 1, "tag": tag}]
         pos = len(rd)
         if kind in ("lp", "lv"):
             rd.extend([C, C + 1] if kind == "lp" else [C, R1, R2, C + 1])
@@ -845,6 +872,8 @@ def check_C15(tier, seed):
                 out[e["tag"][2]] = vlib.from_limbs(e["obs"]["pool"])
         return [out.get(i) for i in range(len(xs))]
     for kind in names:
+        if kind in ("lh", "th"):
+            continue
         if ranks.get(names[kind], {}).get("status") != "affine" or ranks[names[kind]]["rank"] != 64 or (kind, -1) not in img:
             continue
         c0 = img[(kind, -1)]
@@ -855,6 +884,9 @@ def check_C15(tier, seed):
             x = gf2_solve(cols, y ^ c0)
             if x is not None:
                 xs.append(x)
+        xfp = gf2_solve([cols[i] ^ (1 << i) for i in range(64)], c0)       # a fixed point of the map, if it has one
+        if xfp is not None:
+            xs.append(xfp)
         got = run_map(kind, xs)
         probes_run += len(xs)
         for x, y in zip(xs, got):
@@ -880,6 +912,42 @@ def check_C15(tier, seed):
                 print("VIOLATION property=C15 replay=%s" % path)
                 print("  %s: inputs 0x%016x and 0x%016x give the same result 0x%016x on the real code (a special case breaks the bijection)" % (names[kind], x, q, y))
                 break
+    # a whole collection that lands on the value it started from: most affine maps of GF(2)^64 have no fixed point, so
+    # several collections (the same readings entered at different offsets) are tried until one has
+    if ranks.get(names["nx"], {}).get("status") == "affine":
+        for off in range(1, 13):
+            nx_off[0] = off
+            basis = run_map("nx", [0] + [1 << i for i in range(64)])
+            if any(v is None for v in basis):
+                continue
+            c1 = basis[0]
+            cols1 = [basis[i + 1] ^ c1 for i in range(64)]
+            xfp = gf2_solve([cols1[i] ^ (1 << i) for i in range(64)], c1)
+            if xfp is None:
+                continue
+            probes_run += 66
+            y = run_map("nx", [xfp])[0]
+            pred = c1 ^ functools.reduce(lambda a, i: a ^ (cols1[i] if xfp >> i & 1 else 0), range(64), 0)
+            if y is None or y == pred:
+                break               # the fixed point behaves like every other pool
+            q = gf2_solve(cols1, y ^ c1)
+            if q is None or q == xfp or run_map("nx", [q])[0] != y:
+                break
+            ops = sched_for("nx", [(xfp, ["confirm", "nx", 0]), (q, ["confirm", "nx", 1])])[1:]
+            cs, ct = os.path.join(wd, "c4.ndjson"), os.path.join(wd, "ct4.ndjson")
+            vlib.write_ndjson(cs, [{"op": "reset"}] + ops)
+            vlib.drive(binp, cs, ct)
+            rc4 = vlib.run_tlc(os.path.join(vlib.SPEC, "alg", "ALG_Confirm.tla"), os.path.join(vlib.SPEC, "alg", "ALG_Confirm.cfg"),
+                               os.path.join(wd, "metac4"), env={"TRACE": ct}, timeout=300)
+            if '<<"COLLISION", TRUE>>' in rc4["out"]:
+                nviol += 1
+                path = vlib.write_replay("C15", {"property": "C15", "case": "collision of " + names["nx"], "signature": "collision|fixedpoint|nx",
+                                                 "schedule": [{"op": "reset"}] + ops, "inputs": ["0x%016x" % xfp, "0x%016x" % q],
+                                                 "note": "a pool that one collection maps to itself is treated specially: it and another pool end in the same output"})
+                print("VIOLATION property=C15 replay=%s" % path)
+                print("  %s: pools 0x%016x (a fixed point of the collection) and 0x%016x are merged into 0x%016x on the real code" % (names["nx"], xfp, q, y))
+            break
+        nx_off[0] = 0
     if rot != 64:
         raise ToolError("specification-level rotl7 is not a permutation?!")
     cov = {"states": max(1, r["states"]), "transitions": max(1, r["states"] - 1), "traces_validated_against_impl": 1,
@@ -910,9 +978,10 @@ def step_weight(evs):
 
 def check_C02(tier, seed):
     S = corpora.block_alg_corpus("Hc128Rng", seed, tier, 32, 2200, 2)
-    panic_candidates(S, ["Hc128Rng"], 8000 if tier == "quick" else 60000, "C02")
+    panic_candidates(S, ["Hc128Rng"], 600000 if tier == "quick" else 6000000, "C02")
     return trace_check("C02", tier, seed, S, "Trace_Alg.tla", "Trace_Alg.cfg", weight=step_weight, timeout=3400, release_every=6,
-                       extra_runs=[("C02-veryfar", corpora.very_far_corpus(seed), "Trace_Pair", None, "o3chk")],
+                       extra_runs=[("C02-veryfar", corpora.very_far_corpus(seed), "Trace_Pair", None, "o3chk"),
+                                   ("C02-mixed", corpora.mixed_value_corpus("Hc128Rng", seed, tier), "Trace_Full", None)],
                        rule="Hc128Rng::from_seed + next_u32 on unit-bit seeds (every key and IV bit), structured seeds, random seeds x 32..96 words, and long runs of 2200 consecutive words (P phase, Q phase, every 16-word refill, the 1024-step wrap and into the second cycle); every word is compared by TLC with Wu's HC-128 written in paper form (Hc128.tla: W expansion, 1024 set-up steps, g1/g2/h1/h2, boxminus indices). distinct = distinct recorded events",
                        assumptions=COMMON_ASSUME + ["sampled seeds and positions < 2200: HC-128 is non-linear, agreement is established on the corpus, not for all 2^256 seeds; values are validated up to word 40 000; beyond that, up to past word 2^32 (optimised build with overflow checks), only that a keystream word is produced at all; the usize counter wrap is not reachable"])
 
@@ -922,10 +991,14 @@ def check_C03(tier, seed):
     parts, nviol = [], 0
     for kind, salt in (("IsaacRng", 3), ("Isaac64Rng", 33)):
         S = corpora.block_alg_corpus(kind, seed, tier, 256, 10240 if tier != "quick" else 1024, salt)
-        panic_candidates(S, [kind], 3000 if tier == "quick" else 20000, "C03")
+        panic_candidates(S, [kind], (10000000 if kind == "IsaacRng" else 4000000) if tier == "quick" else 40000000, "C03")
         ev, cs, res = run_trace("C03-" + kind, S, "Trace_Alg.tla", "Trace_Alg.cfg", weight=step_weight, timeout=3400)
         parts.append((ev, cs, res))
         nviol += report_rejections("C03", res["rejected"], S)
+        Sm = corpora.mixed_value_corpus(kind, seed, tier)
+        ev, cs, res = run_trace("C03-mixed-" + kind, Sm, "Trace_Full.tla", "Trace_Full.cfg", timeout=3400)
+        parts.append((ev, cs, res))
+        nviol += report_rejections("C03", res["rejected"], Sm)
         # every 6th case again with the optimised build (the statement has no build profile in it)
         sub = vlib.Sched()
         sub.cases = S.cases[::6]
@@ -1227,6 +1300,47 @@ def c19_general_cases(seed, tier):
         bad = [{"op": "src", "s": 9, "bytes": [0xEE] * (2 * n), "fallible": True, "fail_at": 1, "partial": max(1, n - 3)},
                {"op": "try_from_rng", "g": 9, "kind": kind, "s": 9, "th": 2}]
         cases.append({"label": "%s constructed after another instance's try_from_rng failed" % kind, "solo": solo, "inter": merge(solo, head=bad), "bg": [kind]})
+    # (d) a neighbour of the same type produces 65 530 values first, 20 more in the middle (a process-wide count of
+    # outputs / collections passes 2^16 while the instance under observation is at work)
+    for kind in (["JitterRng", "Hc128Rng", "IsaacRng", "Isaac64Rng", "XorShiftRng", "Xoshiro256PlusPlus", "SplitMix64"] if tier == "quick" else ["JitterRng"] + corpora.ALL_SEEDABLE):
+        def mk(g, salt):
+            if kind == "JitterRng":
+                return [{"op": "timer", "t": g, "readings": [vlib.u64(1000 + 17 * salt)], "cont": [vlib.u64(97 + salt), vlib.u64(1013), vlib.u64(331 + 2 * salt), vlib.u64(1999), vlib.u64(53)]},
+                        {"op": "jit_new", "g": g, "t": g}, {"op": "set_rounds", "g": g, "r": 1}]
+            return [{"op": "from_seed", "g": g, "kind": kind, "seed": [(salt * 31 + i * 7 + 1) & 0xFF for i in range(corpora.SEEDLEN[kind])]}]
+        wbk = 8 if kind == "JitterRng" else corpora.WORDBYTES[kind]
+        via = "u64" if wbk == 8 else "u32"
+        a_ops = mk(1, 1) + [{"op": "skip", "g": 1, "bytes": 65530 * wbk, "via": via}]
+        b_ops = mk(2, 2) + [{"op": "next_u64", "g": 2} for _ in range(12)] + [{"op": "fill_bytes", "g": 2, "n": 9 * wbk}, {"op": "next_u32", "g": 2}]
+        inter = [dict(o, th=1) if o["op"] not in ("timer",) else o for o in a_ops]
+        inter += [dict(o, th=2) if o["op"] not in ("timer",) else o for o in b_ops[:len(mk(2, 2)) + 6]]
+        inter += [{"op": "skip", "g": 1, "bytes": 20 * wbk, "via": via, "th": 1}]
+        inter += [dict(o, th=1) for o in b_ops[len(mk(2, 2)) + 6:]]
+        solo = {2: b_ops, 1: a_ops + [{"op": "skip", "g": 1, "bytes": 20 * wbk, "via": via}]}
+        cases.append({"label": "%s next to a neighbour that has produced 65 530 values" % kind, "solo": solo, "inter": inter, "bg": [kind]})
+    # (e) a neighbour JitterRng whose clock stands still for 2^20 + 1000 measurements in the middle of one collection
+    # (it gets through, as it must); the instance under observation has short stalls of its own afterwards
+    if True:
+        t = rng.getrandbits(40) + (1 << 34)
+        rdA = [t]
+        for k in range(6):
+            t += 59 + 14 * k
+            rdA += [t - 1, t, t + 1]
+        nA = len(rdA)
+        for k in range(40):
+            t += 131 + 17 * k + (k * k) % 7
+            rdA += [t - 1, t, t + 1]
+        a_ops = [{"op": "timer", "t": 1, "readings": [vlib.u64(x) for x in rdA], "cont": corpora.CONT, "stall": {"at": nA, "count": 3 * ((1 << 20) + 1000)}},
+                 {"op": "jit_new", "g": 1, "t": 1}, {"op": "set_rounds", "g": 1, "r": 2}, {"op": "skip", "g": 1, "bytes": 24, "via": "u64"}]
+        t = rng.getrandbits(40) + (1 << 34)
+        rdB = [t]
+        for k in range(120):
+            t += (0 if 20 <= k < 26 or 50 <= k < 53 else 71 + 13 * k + (k * k) % 5)
+            rdB += [t, t, t] if (20 <= k < 26 or 50 <= k < 53) else [t - 1, t, t + 1]
+        b_ops = [{"op": "timer", "t": 2, "readings": [vlib.u64(x) for x in rdB], "cont": corpora.CONT}, {"op": "jit_new", "g": 2, "t": 2}, {"op": "set_rounds", "g": 2, "r": 3}] + \
+                [{"op": "next_u64", "g": 2} for _ in range(6)]
+        inter = [dict(o, th=1) if o["op"] != "timer" else o for o in a_ops] + [dict(o, th=2) if o["op"] != "timer" else o for o in b_ops]
+        cases.append({"label": "JitterRng next to a neighbour whose clock stood still for 2^20 measurements", "solo": {1: a_ops, 2: b_ops}, "inter": inter, "bg": ["JitterRng"]})
     # (c) JitterRng::new() (process-wide cache) before the test_timer of an instance with a hopeless timer of its own
     for style, step in (("constant step", [25]), ("multiples of 100", [100, 300, 200]), ("lively", None)):
         t = rng.getrandbits(40) + 1
@@ -1396,6 +1510,8 @@ def check_C18(tier, seed):
     configs = CONFIGS_ALL[:3] if tier == "quick" else CONFIGS_ALL
     corp = corpora.c18_corpora(seed, tier)
     specs = {"alg": ("Trace_Alg", step_weight), "api": ("Trace_Stream", None), "jit": ("Trace_Jitter", jit_weight), "far": ("Trace_Pair", None)}
+    # "jitlong" (66 000 consecutive stuck measurements) is compared across configurations only: C12 validates such a run
+    # against the specification in the dev build
     wd = vlib.workdir("run-C18")
     bins, cfginfo = {}, {}
     for prof, serde in configs:
@@ -1414,6 +1530,8 @@ def check_C18(tier, seed):
             traces[(name, cfg)] = tp
     # (1) the reference configuration is a behaviour of the specification
     for name, S in corp.items():
+        if name not in specs:
+            continue
         spec, w = specs[name]
         events = vlib.read_ndjson(traces[(name, ref)])
         cases = vlib.split_events(events)
@@ -1877,6 +1995,33 @@ def check_C07(tier, seed):
     ev_r, cases_r, tres_r = run_trace("C07-release", Srel, "Trace_Alg.tla", "Trace_Alg.cfg", profile="release")
     nv, kinds_off_rel = decide_paths(cases_r, tres_r, {c["id"]: c for c in Srel.cases}, vlib.build_harness("release", True), " (release build)")
     nviol += nv
+    # "a generator seeded through the API never reaches the all-zero state": the seeding inputs that come closest to it
+    # (the u64 arguments whose k-th SplitMix64 output is zero, zero and almost-zero seeds, sources with leading zero
+    # blocks); counted here only when the recorded state image IS the all-zero state (everything else is C08 / C09's)
+    adv = [(-kk * 0x9E3779B97F4A7C15) & ((1 << 64) - 1) for kk in range(1, 9)]
+    Sz = vlib.Sched()
+    Sz.cases = [c for c in corpora.c08_corpus(seed, "quick", adv).cases if any(t in c["label"] for t in ("seed_from_u64 adversarial", "zero and almost-zero seeds"))]
+    import random as _rnd
+    rz = _rnd.Random(seed + 707)
+    for kind in corpora.LINEAR:       # one source per case, so that every constructor call is judged on its own
+        L = corpora.SEEDLEN[kind]
+        for z in (1, 2):
+            for ctor, fallible in (("from_rng", False), ("try_from_rng", True)):
+                Sz.case("%s %s from a source with %d leading zero block(s)" % (kind, ctor, z),
+                        [{"op": "src", "s": 1, "bytes": [0] * (z * L) + [rz.getrandbits(8) | 1 for _ in range(2 * L)], "fallible": fallible},
+                         {"op": ctor, "g": 1, "kind": kind, "s": 1}, {"op": corpora.native_op(kind), "g": 1, "n": 2}])
+        Sz.case("%s try_from_rng: a zero block, then the source fails" % kind,
+                [{"op": "src", "s": 1, "bytes": [0] * L + [rz.getrandbits(8) | 1 for _ in range(2 * L)], "fallible": True, "fail_at": 2},
+                 {"op": "try_from_rng", "g": 1, "kind": kind, "s": 1}])
+    ev_z, cases_z, tres_z = run_trace("C07-seeding", Sz, "Trace_Alg.tla", "Trace_Alg.cfg", weight=step_weight)
+    zero_rej = []
+    for r in tres_z["rejected"]:
+        evs = r["events"]
+        bad = evs[r["at_event"] - 1] if 0 < r["at_event"] <= len(evs) else None
+        img = ((bad or {}).get("obs") or {}).get("s")
+        if img and all(l == 0 for w in img for l in w):
+            zero_rej.append(r)
+    nviol += report_rejections("C07", zero_rej, Sz)
     # a step that is not injective: two different recorded states with the same recorded successor.  The pair is
     # replayed on the code and the equality of the two successors is confirmed by TLC (ALG_Confirm on the images)
     collisions = 0
@@ -1915,7 +2060,7 @@ def check_C07(tier, seed):
                         print("VIOLATION property=C07 replay=%s" % path2)
                         print("  %s/%s: the states with seeds %s and %s have the same successor" % (kp[0], kp[1], bytes(seen[key][1]).hex(), bytes(cur[1]).hex()))
                 seen.setdefault(key, cur)
-    cov = base_cov([(events, cases, tres), (ev_r, cases_r, tres_r)], "(1) for each of the 7 distinct linear engines TLC checks the certificate: Krylov rank n and P(T)e0 = 0 (so GF(2)[x]/P -> V, f |-> f(T)e0 is an isomorphism carrying x to T), x^(2^n) = x, the listed primes multiply to 2^n - 1, and for every prime q: cofactor*q = 2^n - 1 and x^cofactor # 1 - so x has order exactly 2^n - 1, GF(2)[x]/P is a field and T is a bijection permuting the 2^n - 1 non-zero states in a single cycle; (2) for every one of the 15 linear generator types and every path that advances the state (the native call, the other next_*, fill_bytes(8), fill_bytes(64), fill_bytes(200), fill_bytes(1028)) the transition matrix is extracted from the real code on the complete basis of unit-bit seeds (plus random seeds for linearity) and validated by TLC against the specification's T^k (k = words consumed); (3) if a type's matrix differs from the reference, the same certificate is run on the extracted matrix and a violation is reported only with a certificate (a non-zero state stepping to zero, replayed on the code; or T^((2^n-1)/q) = I; or T^(2^n-1) # I). distinct = distinct recorded events", ["Trace_Alg", "ALG_Engine"])
+    cov = base_cov([(events, cases, tres), (ev_r, cases_r, tres_r), (ev_z, cases_z, tres_z)], "(0) seeding inputs closest to the all-zero state (C08's corpus) must not produce it; (1) for each of the 7 distinct linear engines TLC checks the certificate: Krylov rank n and P(T)e0 = 0 (so GF(2)[x]/P -> V, f |-> f(T)e0 is an isomorphism carrying x to T), x^(2^n) = x, the listed primes multiply to 2^n - 1, and for every prime q: cofactor*q = 2^n - 1 and x^cofactor # 1 - so x has order exactly 2^n - 1, GF(2)[x]/P is a field and T is a bijection permuting the 2^n - 1 non-zero states in a single cycle; (2) for every one of the 15 linear generator types and every path that advances the state (the native call, the other next_*, fill_bytes(8), fill_bytes(64), fill_bytes(200), fill_bytes(1028)) the transition matrix is extracted from the real code on the complete basis of unit-bit seeds (plus random seeds for linearity) and validated by TLC against the specification's T^k (k = words consumed); (3) if a type's matrix differs from the reference, the same certificate is run on the extracted matrix and a violation is reported only with a certificate (a non-zero state stepping to zero, replayed on the code; or T^((2^n-1)/q) = I; or T^(2^n-1) # I). distinct = distinct recorded events", ["Trace_Alg", "ALG_Engine"])
     cov["certificates"] = {"%s:%s" % k: {"verified": v[0], "tlc_wall_s": round(v[2], 1), "result": v[1][:160]} for k, v in sorted(res.items(), key=lambda kv: str(kv[0]))}
     cov["obligations"] = len(tasks)
     cov["discharged"] = len(tasks)
@@ -2045,9 +2190,9 @@ def jitter_special_scripts(rounds=1, seed=1):
                 if comb >> j & 1:
                     k, b = unknowns[i]
                     ds[k] ^= 1 << b
-            got = run([ds])
-            if 0 in got and (got[0] & mask) == want:
-                res[name] = (script(ds), got[0])
+            # the solution is NOT verified on the code under test (a code that treats such a value specially would fail the
+            # verification and thereby hide the very case): it is a script like any other, the specification judges it
+            res[name] = (script(ds), want)
     import shutil
     shutil.rmtree(wd, ignore_errors=True)
     _SPECIAL_CACHE[key] = res
